@@ -255,35 +255,35 @@ func (c *Classifier) Normalize(in []byte) []byte {
 
 	var buf bytes.Buffer
 
-	switch len(doc.Tokens) {
-	case 0:
+	if len(doc.Tokens) == 0 {
 		return nil
-	case 1:
-		buf.WriteString(c.dict.getWord(doc.Tokens[0].ID))
-		return buf.Bytes()
 	}
 
+	// The line structure is re-created from the line numbers of the tokens, so
+	// that every word ends up on the output line that Match attributes to it:
+	// newlines are written until the output has reached the token's line (a
+	// line that was dropped or joined leaves no EOL token behind), and the EOL
+	// tokens themselves are not written.
 	prevLine := 1
-	buf.WriteString(c.dict.getWord(doc.Tokens[0].ID))
-	for _, t := range doc.Tokens[1:] {
-		// Only write out an EOL token that incremented the line
-		if t.Line == prevLine+1 {
+	startOfLine := true
+	for _, t := range doc.Tokens {
+		for ; prevLine < t.Line; prevLine++ {
 			buf.WriteString(eol)
+			startOfLine = true
 		}
 
 		// Only write tokens that aren't EOL
 		txt := c.dict.getWord(t.ID)
 
 		if txt != eol {
-			// Only put a space between tokens if the previous token was on the same
-			// line. This prevents spaces after an EOL
-			if t.Line == prevLine {
+			// Only put a space between tokens on the same line. This prevents
+			// spaces after an EOL
+			if !startOfLine {
 				buf.WriteString(" ")
 			}
 			buf.WriteString(txt)
+			startOfLine = false
 		}
-
-		prevLine = t.Line
 	}
 	return buf.Bytes()
 }
